@@ -47,6 +47,10 @@ pub fn all_probes<H: HB>(prop: &str, universe: &[u32]) -> Vec<Box<dyn Probe<H>>>
         "C09" => vec![Box::new(IterMutPrograms { extra_len: 3, prios })],
         "C13" => vec![Box::new(IterPrograms { which: vec![It::Iter, It::IterRef, It::IntoIter, It::Drain, It::Sorted], extra_len: 2, sorted_vecs: false, adaptors: true })],
         "C16" => vec![Box::new(EmptiedLikeFresh { universe: universe.to_vec(), prios })],
+        "C08" => vec![Box::new(BulkMutationPrograms { universe: universe.to_vec(), prios, all_tables: false })],
+        "C08t" => vec![Box::new(BulkMutationPrograms { universe: universe.to_vec(), prios, all_tables: true })],
+        "C14" => vec![Box::new(CloneIndependence { universe: universe.to_vec(), prios })],
+        "C17" => vec![Box::new(CapacityTwin { universe: universe.to_vec(), prios, huge: true })],
         _ => vec![],
     }
 }
@@ -427,6 +431,249 @@ impl EmptiedLikeFresh {
 impl<H: HB> Probe<H> for EmptiedLikeFresh {
     fn name(&self) -> String {
         "emptied-behaves-like-fresh".into()
+    }
+    fn on_state(&self, q: &AnyQ<H>, m: &Model, _unordered: bool) -> Result<u64, String> {
+        with_q!(q, x => self.run(x, m))
+    }
+}
+
+/// C08: every consumed prefix x every write pattern of iter_mut (front, back, alternating), and
+/// retain_mut with every keep-mask x rewrite table, each as a fully checked transition.
+pub struct BulkMutationPrograms {
+    pub universe: Vec<u32>,
+    pub prios: Vec<i32>,
+    pub all_tables: bool,
+}
+
+impl<H: HB> Probe<H> for BulkMutationPrograms {
+    fn name(&self) -> String {
+        "bulk-mutation-programs".into()
+    }
+    fn on_state(&self, q: &AnyQ<H>, m: &Model, unordered: bool) -> Result<u64, String> {
+        let n = m.len();
+        let back_offered = with_q!(q, x => iter_mut_offers_back(x));
+        let mut ops: Vec<Op> = vec![];
+        // iter_mut: writes = None or one of the priorities, per consumed element
+        let choices: Vec<Option<i32>> = std::iter::once(None).chain(self.prios.iter().map(|&p| Some(p))).collect();
+        let dirs: Vec<u8> = if back_offered { vec![0, 1, 2] } else { vec![0] };
+        for j in 0..=(n + 1) {
+            let combos = (choices.len() as u64).pow(j as u32);
+            for c in 0..combos {
+                for &d in &dirs {
+                    if d > 0 && j == 0 {
+                        continue;
+                    }
+                    let mut x = c;
+                    let steps: Vec<ImStep> = (0..j)
+                        .map(|i| {
+                            let w = choices[(x % choices.len() as u64) as usize];
+                            x /= choices.len() as u64;
+                            let back = match d {
+                                0 => false,
+                                1 => true,
+                                _ => i % 2 == 1,
+                            };
+                            ImStep { back, prio: w, payload: None }
+                        })
+                        .collect();
+                    ops.push(Op::IterMut { steps, end: End::Drop, via_ref: false });
+                }
+            }
+        }
+        // retain_mut: all masks x all rewrite tables (or a structured subset)
+        let present: Vec<u32> = m.keys().copied().collect();
+        let masks: Vec<Vec<u32>> = (0..(1u32 << n)).map(|mask| (0..n).filter(|i| mask >> i & 1 == 1).map(|i| present[i]).collect()).collect();
+        let mut tables: Vec<Vec<(u32, i32)>> = vec![];
+        if self.all_tables {
+            let combos = (choices.len() as u64).pow(n as u32);
+            for c in 0..combos {
+                let mut x = c;
+                let mut t = vec![];
+                for &k in &present {
+                    if let Some(p) = choices[(x % choices.len() as u64) as usize] {
+                        t.push((k, p));
+                    }
+                    x /= choices.len() as u64;
+                }
+                tables.push(t);
+            }
+        } else {
+            tables.push(vec![]);
+            for &k in &present {
+                for &p in &self.prios {
+                    tables.push(vec![(k, p)]);
+                }
+            }
+        }
+        for mk in &masks {
+            for t in &tables {
+                ops.push(Op::RetainMut(mk.clone(), t.clone()));
+            }
+            ops.push(Op::Retain(mk.clone()));
+        }
+        let mut cases = 0;
+        for op in &ops {
+            cases += 1;
+            apply(q, unordered, m, op, &self.universe).map_err(|e| format!("{op:?}: {e}"))?;
+        }
+        Ok(cases)
+    }
+}
+
+fn core_ops(universe: &[u32], prios: &[i32], double: bool) -> Vec<Op> {
+    let mut ops = vec![Op::PopHi];
+    if double {
+        ops.push(Op::PopLo);
+    }
+    for &k in universe {
+        for &p in prios {
+            ops.push(Op::Push(k, 0, p));
+            ops.push(Op::Change(k, p, false));
+            ops.push(Op::PushInc(k, 0, p));
+        }
+        ops.push(Op::Remove(k, false));
+    }
+    ops.push(Op::Clear);
+    ops
+}
+
+/// C14: a clone is equal to its source, has the same arrangement, behaves identically, and
+/// mutating either never affects the other.
+pub struct CloneIndependence {
+    pub universe: Vec<u32>,
+    pub prios: Vec<i32>,
+}
+
+impl CloneIndependence {
+    fn run<Q: QueueLike>(&self, q: &Q, m: &Model) -> Result<u64, String> {
+        let before = q.snap();
+        let mut cases = 0;
+        let c0 = q.clone();
+        if !q.q_eq(&c0) || !c0.q_eq(q) || q.q_ne(&c0) {
+            return Err("a clone does not compare equal to its source".into());
+        }
+        if !q.q_eq(q) || q.q_ne(q) {
+            return Err("a queue does not compare equal to itself".into());
+        }
+        if c0.snap() != before {
+            return Err(format!("a clone is arranged differently from its source: {:?} vs {:?}", c0.snap(), before));
+        }
+        let mut extra = core_ops(&self.universe, &self.prios, Q::DOUBLE);
+        extra.push(Op::IterMut { steps: vec![ImStep { back: false, prio: Some(self.prios[0]), payload: Some(9) }], end: End::Drop, via_ref: false });
+        extra.push(Op::Retain(m.keys().copied().take(1).collect()));
+        extra.push(Op::Drain { front: 1, back: 0, end: End::Drop });
+        extra.push(Op::Reserve(100));
+        extra.push(Op::ShrinkToFit);
+        for op in &extra {
+            cases += 1;
+            // mutate the clone: the source must not change
+            let src = q.clone();
+            let mut cl = src.clone();
+            let mut mm = m.clone();
+            let mut un = false;
+            let r1 = step(&mut cl, op, &mut mm, &mut un).map_err(|e| format!("{op:?} on a clone: {e}"))?;
+            let s_after = src.snap();
+            if s_after != before {
+                return Err(format!("{op:?} on a clone changed its source: {before:?} -> {s_after:?}"));
+            }
+            check_state(&src, &s_after, m, false, &self.universe).map_err(|e| format!("source after {op:?} on its clone: {e}"))?;
+            // mutate the source: the clone must not change, and both behave identically
+            let mut src2 = q.clone();
+            let cl2 = src2.clone();
+            let mut mm2 = m.clone();
+            let r2 = step(&mut src2, op, &mut mm2, &mut un).map_err(|e| format!("{op:?}: {e}"))?;
+            if cl2.snap() != before {
+                return Err(format!("{op:?} on the source changed its clone"));
+            }
+            if r1 != r2 || cl.snap() != src2.snap() {
+                return Err(format!("{op:?} behaves differently on a clone ({r1:?}, {:?}) and on its source ({r2:?}, {:?})", cl.snap(), src2.snap()));
+            }
+        }
+        Ok(cases)
+    }
+}
+
+impl<H: HB> Probe<H> for CloneIndependence {
+    fn name(&self) -> String {
+        "clone-independence".into()
+    }
+    fn on_state(&self, q: &AnyQ<H>, m: &Model, _unordered: bool) -> Result<u64, String> {
+        with_q!(q, x => self.run(x, m))
+    }
+}
+
+/// C17: capacity calls are invisible: after any of them every depth-2 continuation gives the
+/// same returns and contents as on the untouched queue, and the extraction order is the same.
+pub struct CapacityTwin {
+    pub universe: Vec<u32>,
+    pub prios: Vec<i32>,
+    pub huge: bool,
+}
+
+fn drain_order<Q: QueueLike>(q: &Q, hi: bool) -> Vec<Pair> {
+    let mut c = q.clone();
+    let mut out = vec![];
+    for _ in 0..(q.q_len() + 2) {
+        match if hi { c.q_pop_hi() } else { c.q_pop_lo() } {
+            Some((i, p)) => out.push(pair_of(&i, &p)),
+            None => break,
+        }
+    }
+    out
+}
+
+impl CapacityTwin {
+    fn run<Q: QueueLike>(&self, q: &Q, m: &Model) -> Result<u64, String> {
+        let mut amounts: Vec<usize> = vec![0, 1, 2, 5, 100];
+        if self.huge {
+            amounts.extend([1usize << 60, usize::MAX / 2, usize::MAX - 1, usize::MAX]);
+        }
+        let mut caps: Vec<Op> = vec![Op::ShrinkToFit];
+        for &a in &amounts {
+            caps.extend([Op::Reserve(a), Op::ReserveExact(a), Op::TryReserve(a), Op::TryReserveExact(a)]);
+        }
+        let conts = core_ops(&self.universe, &self.prios, Q::DOUBLE);
+        let mut cases = 0;
+        for cap in &caps {
+            let mut t = q.clone();
+            let mut mm = m.clone();
+            let mut un = false;
+            let r = step(&mut t, cap, &mut mm, &mut un).map_err(|e| format!("{cap:?}: {e}"))?;
+            if mm != *m {
+                return Err(format!("{cap:?} changed the reference contents (oracle bug?)"));
+            }
+            let st = t.snap();
+            check_state(&t, &st, m, false, &self.universe).map_err(|e| format!("after {cap:?} ({r:?}): {e}"))?;
+            if drain_order(&t, true) != drain_order(q, true) || (Q::DOUBLE && drain_order(&t, false) != drain_order(q, false)) {
+                return Err(format!("{cap:?} changed the order of extraction"));
+            }
+            for o1 in &conts {
+                for o2 in &conts {
+                    cases += 1;
+                    let mut a = q.clone();
+                    let mut b = t.clone();
+                    let (mut ma, mut mb) = (m.clone(), m.clone());
+                    let (mut ua, mut ub) = (false, false);
+                    for o in [o1, o2] {
+                        let ra = step(&mut a, o, &mut ma, &mut ua)?;
+                        let rb = step(&mut b, o, &mut mb, &mut ub).map_err(|e| format!("after {cap:?}, then {o1:?},{o2:?}: {e}"))?;
+                        if ra != rb || ma != mb || model_of(&a.snap()) != model_of(&b.snap()) {
+                            return Err(format!("after {cap:?}, {o1:?},{o2:?} gives {rb:?}/{:?} instead of {ra:?}/{:?}", b.snap().slots, a.snap().slots));
+                        }
+                    }
+                    if drain_order(&a, true) != drain_order(&b, true) {
+                        return Err(format!("after {cap:?}, then {o1:?},{o2:?}: the extraction order differs from the untouched queue"));
+                    }
+                }
+            }
+        }
+        Ok(cases)
+    }
+}
+
+impl<H: HB> Probe<H> for CapacityTwin {
+    fn name(&self) -> String {
+        "capacity-twin".into()
     }
     fn on_state(&self, q: &AnyQ<H>, m: &Model, _unordered: bool) -> Result<u64, String> {
         with_q!(q, x => self.run(x, m))
